@@ -61,7 +61,7 @@ Proof.
     destruct (x =? 10)%N.
     + destruct (h_cur st) as [|c0 ct]; [reflexivity|].
       destruct (h_nl st) as [|[|k]].
-      * destruct (eqb_listN (rev (c0 :: ct)) scheme_name); [apply IH | reflexivity].
+      * destruct (eqb_listN (frev (c0 :: ct)) scheme_name); [apply IH | reflexivity].
       * apply IH.
       * apply IH.
     + apply IH.
@@ -89,7 +89,7 @@ Proof.
   intros Hc Hr. cbn [scan h_nl h_cur h_man h_mac].
   change (Nat.leb 3 0) with false. rewrite N.eqb_refl.
   destruct c as [|c0 ct]; [contradiction|].
-  rewrite Hr. replace (eqb_listN scheme_name scheme_name) with true; [reflexivity|].
+  rewrite frev_rev, Hr. replace (eqb_listN scheme_name scheme_name) with true; [reflexivity|].
   symmetry. apply eqb_listN_spec. reflexivity.
 Qed.
 
@@ -98,7 +98,7 @@ Lemma scan_nl1 c t man mac :
 Proof.
   intros Hc. cbn [scan h_nl h_cur h_man h_mac].
   change (Nat.leb 3 1) with false. rewrite N.eqb_refl.
-  destruct c as [|c0 ct]; [contradiction|]. reflexivity.
+  destruct c as [|c0 ct]; [contradiction|]. rewrite frev_rev. reflexivity.
 Qed.
 
 Lemma scan_nl2 c t man mac :
@@ -106,7 +106,7 @@ Lemma scan_nl2 c t man mac :
 Proof.
   intros Hc. cbn [scan h_nl h_cur h_man h_mac].
   change (Nat.leb 3 2) with false. rewrite N.eqb_refl.
-  destruct c as [|c0 ct]; [contradiction|]. reflexivity.
+  destruct c as [|c0 ct]; [contradiction|]. rewrite frev_rev. reflexivity.
 Qed.
 
 Lemma rev_app_nil_nonempty (l : list N) : l <> [] -> rev l ++ [] <> [].
@@ -200,7 +200,7 @@ Proof.
     destruct Hwf as (Wcur & Wman & Wmac & Wmac0 & Wle). cbn [h_nl h_cur h_man h_mac] in *.
     destruct (b =? 10)%N eqn:Eb.
     + apply N.eqb_eq in Eb. subst b. rewrite count_occ_cons_10.
-      destruct cur as [|c0 ct]; [discriminate|].
+      destruct cur as [|c0 ct]; [discriminate|]. rewrite frev_rev in Hs.
       destruct nl as [|[|[|k]]]; [| | |lia].
       * destruct (eqb_listN (rev (c0 :: ct)) scheme_name) eqn:El; [|discriminate].
         apply eqb_listN_spec in El.
